@@ -20,7 +20,7 @@ func init() {
 			"children define blocks only at top level and contain nothing but text outside blocks; no block() function; leaf rendered once on a fresh engine",
 			"the reference interpreter (internal/mt) is trusted to transcribe the statement",
 		},
-		quick: 60000, thorough: 200000, minQuick: 5000, minThorough: 50000,
+		quick: 60000, thorough: 1200000, minQuick: 5000, minThorough: 50000,
 	}})
 }
 
